@@ -70,6 +70,15 @@ type c16Case struct {
 	Legacy  bool       `json:"legacy,omitempty"`
 	URLPath string     `json:"url_path,omitempty"`
 	Note    string     `json:"note,omitempty"`
+	// path kinds (c16_path.go)
+	Str   string   `json:"str,omitempty"`
+	Pre   string   `json:"pre,omitempty"`
+	Elems []string `json:"elems,omitempty"`
+	// tree kinds (c16_tree.go): a tree materialised below the sandbox root
+	Tree      []c16TP `json:"tree,omitempty"`
+	Unsafe    string  `json:"unsafe,omitempty"`
+	Follow    bool    `json:"follow,omitempty"`
+	ChartPath string  `json:"chart_path,omitempty"` // relative to the sandbox root
 }
 
 type c16ScanEnt struct {
@@ -105,19 +114,40 @@ type c16Obs struct {
 	LockPre  string   `json:"lock_pre,omitempty"`
 	LockPost string   `json:"lock_post,omitempty"`
 	Panic    string   `json:"panic,omitempty"`
+	// path kinds
+	Clean string `json:"clean,omitempty"`
+	Base  string `json:"base,omitempty"`
+	Dir   string `json:"dir,omitempty"`
+	IsAbs bool   `json:"is_abs,omitempty"`
+	Bool  bool   `json:"bool,omitempty"`
+	// tree kinds
+	Before    []c16TP `json:"before,omitempty"` // the sandbox as it was before the call (the model's input tree)
+	After     []c16TP `json:"after,omitempty"`
+	Resolved  string  `json:"resolved,omitempty"` // resolve: sandbox-relative location, or an error class
+	ChartName string  `json:"chart_name,omitempty"`
+	NameErr   bool    `json:"name_err,omitempty"`
+	LockData  string  `json:"lock_data,omitempty"`
+	Skip      bool    `json:"skip,omitempty"` // observation outside the model's scope (left the sandbox)
+	SBParent  string  `json:"sb_parent,omitempty"` // the directory the sandbox was created in
 }
 
 func (*c16) ID() string { return "C16" }
 func (*c16) CoqImport() string {
-	return "From Helm Require Import Chart.Esc Chart.Paths Chart.Archive Chart.Lock Run.RunC16."
+	return "From Helm Require Import Chart.Esc Chart.Paths Chart.PathFns Chart.Archive Chart.Lock Chart.FsTree Run.RunC16."
 }
 func (*c16) Rule() string {
 	return "arch: gzip+tar streams built from 1-6 raw entries (names from adversarial components: absolute, '..' in every position, " +
 		"backslashes, drive prefixes, unicode, long names via GNU/PAX/ustar-prefix, './' prefixes, duplicates; type flags reg/link/symlink/" +
 		"char/block/dir/fifo/x/g/unknown; mode bits incl. directory bits; declared size = / > / < actual; byte flips, truncation) run " +
 		"through loader.LoadArchiveFiles under injected small limits or the defaults; join: cleanJoin on the same name distribution; " +
-		"lock/expand/extract/download: sandbox directory with planted symlinks and a canary outside. non-trivial = the loader accepted " +
-		"at least one file, or rejected after reading at least one counted entry, or a sandbox call wrote something; distinct = hash of (case, observation)"
+		"lock/expand/extract/download: sandbox directory with planted symlinks and a canary outside; path/pjoin/prefix/join2: path.Clean, " +
+		"filepath.Clean/Base/Dir/Join, path.IsAbs/Join, strings.HasPrefix and cleanJoin on strings built from components {., .., a, empty, 'a b', " +
+		"c:, backslash, unicode} with / and \\ separators, absolute/relative, trailing slashes, plus all short strings over a small alphabet; " +
+		"secjoin/resolve/expandt/extractt/lockt: a generated tree of directories, files and symlinks (relative, absolute, chains, loops, dangling, " +
+		"pointing outside) materialised in the sandbox, then securejoin.SecureJoin, os.Stat/Lstat, chartutil.Expand, TarGzExtractor.Extract and " +
+		"writeLock on it, the whole tree afterwards compared with the nested model. non-trivial = the loader accepted " +
+		"at least one file, or rejected after reading at least one counted entry, or a sandbox call wrote something, or the path string is " +
+		"non-empty, or the tree holds a symlink inside the destination; distinct = hash of (case, observation)"
 }
 
 // ---------------------------------------------------------------- raw tar writer
@@ -335,6 +365,10 @@ func (p *c16) Execute(ci any) (out any) {
 		return c16ExecArch(&c)
 	case "join":
 		return c16ExecJoin(&c)
+	case "path", "pjoin", "prefix", "join2":
+		return c16ExecPath(&c)
+	case "secjoin", "resolve", "expandt", "extractt", "lockt":
+		return c16ExecTree(&c)
 	default:
 		return c16ExecSandbox(&c)
 	}
@@ -425,6 +459,10 @@ func (p *c16) Oracle(ci, oi any) []hx.Violation {
 		}
 	case "join":
 		return c16OracleJoin(&c, &obs)
+	case "path", "pjoin", "prefix", "join2":
+		return c16OraclePath(&c, &obs)
+	case "secjoin", "resolve", "expandt", "extractt", "lockt":
+		return c16OracleTree(&c, &obs)
 	default:
 		return c16OracleSandbox(&c, &obs)
 	}
@@ -472,6 +510,10 @@ func (p *c16) CoqCase(ci, oi any) string {
 		return fmt.Sprintf("CArch %s (mkTS %s %s %s) %s", lim, hx.CoqBool(obs.GzErr), hx.CoqList(ents), hx.CoqBool(obs.ScanErr), o)
 	case "join":
 		return c16CoqJoin(&c, &obs)
+	case "path", "pjoin", "prefix", "join2":
+		return c16CoqPath(&c, &obs)
+	case "secjoin", "resolve", "expandt", "extractt", "lockt":
+		return c16CoqTree(&c, &obs)
 	default:
 		return c16CoqSandbox(&c, &obs)
 	}
@@ -494,6 +536,10 @@ func (p *c16) Class(ci, oi any) string {
 			return "join:accepted"
 		}
 		return "join:" + obs.Err
+	case "path", "pjoin", "prefix", "join2":
+		return c16ClassPath(&c, &obs)
+	case "secjoin", "resolve", "expandt", "extractt", "lockt":
+		return c16ClassTree(&c, &obs)
 	}
 	if obs.Err == "" {
 		return c.Kind + ":ok"
@@ -515,8 +561,14 @@ func (p *c16) NonTrivial(ci, oi any) bool {
 			}
 		}
 		return false
-	case "join":
+	case "join", "join2":
 		return c.Dest != ""
+	case "path", "prefix":
+		return c.Str != ""
+	case "pjoin":
+		return len(c.Elems) > 0
+	case "secjoin", "resolve", "expandt", "extractt", "lockt":
+		return c16TreeHasLinkInDest(obs.Before)
 	}
 	return len(obs.Changed) > 0 || obs.Err != ""
 }
@@ -701,13 +753,17 @@ func c16GenArch(r *rand.Rand) c16Case {
 }
 
 func (p *c16) Generate(r *rand.Rand, i int) any {
-	switch k := r.Intn(20); {
-	case k < 12:
+	switch k := r.Intn(40); {
+	case k < 17:
 		return c16GenArch(r)
-	case k < 15:
+	case k < 20:
 		return c16GenJoin(r)
-	default:
+	case k < 26:
 		return c16GenSandbox(r)
+	case k < 32:
+		return c16GenPath(r)
+	default:
+		return c16GenTree(r)
 	}
 }
 
@@ -761,5 +817,7 @@ func (p *c16) Corpus() []any {
 	out = append(out, c16Case{Kind: "arch", MaxTotal: 9, MaxFile: 8, Ents: []c16Ent{reg("c/a", "1234"), reg("c/b", "5678")}})
 	out = append(out, c16CorpusJoin()...)
 	out = append(out, c16CorpusSandbox()...)
+	out = append(out, c16CorpusPath()...)
+	out = append(out, c16CorpusTree()...)
 	return out
 }
